@@ -66,7 +66,6 @@ Proof. unfold xequiv. congruence. Qed.
 
 (* C09 for the differ's own script, every valid matching *)
 Theorem accept_differ c o rootns pe L R rootL rootR m gs T :
-  c_replace c = false ->
   wf_forest L rootL -> wf_forest R rootR -> valid_matching L R rootL rootR m ->
   (forall x, desc L rootL x -> is_comment (ltag (flab L x)) = false) ->
   let s := gen_script [] R rootR L rootL m in
@@ -78,9 +77,9 @@ Theorem accept_differ c o rootns pe L R rootL rootR m gs T :
   xml_format c o rootns Placeholder.ph_init gs W = FOk T ->
   xequiv (ws_text c) (accept T) (remove_comments (doc_tree R rootR)).
 Proof.
-  intros Hrep HwfL HwfR Hvm HC s W HP HCl HN Hren Hok Hnp Hro H.
+  intros HwfL HwfR Hvm HC s W HP HCl HN Hren Hok Hnp Hro H.
   destruct (gen_script_replay [] L R rootL rootR m HwfL HwfR Hvm) as (_ & Hrun & Heq). fold s in Hrun, Heq.
   apply doc_equiv_nil in Heq.
-  eapply xequiv_trans; [apply (accept_format c o rootns pe rootL L (out s) gs (Differ.W s) T Hrep HwfL HC HP HCl HN Hrun Hren Hok Hnp Hro H)|].
+  eapply xequiv_trans; [apply (accept_format c o rootns pe rootL L (out s) gs (Differ.W s) T HwfL HC HP HCl HN Hrun Hren Hok Hnp Hro H)|].
   apply tree_equivb_xequiv, Heq.
 Qed.
